@@ -407,6 +407,8 @@ func oracleLayout(c *hx.Ctx, kase interface{}, pg Page) {
 		cf = append(cf, cl.SpanningFragments...)
 		checkIDs(c, "columns", kase, frs, cf)
 		checkText(c, "columns-gettext", kase, frs, cl.GetText())
+		// "returns all fragments ordered for reading"
+		checkIDs(c, "columns-fragments-in-reading-order", kase, frs, cl.GetFragmentsInReadingOrder())
 
 		// paragraphs
 		pl := layout.NewParagraphDetector().DetectFromFragments(cp(), w, h)
